@@ -138,16 +138,14 @@ def handle (j : Json) : Json :=
     (if multi && ops.any (fun o => o.kind = .gen) then ["typeinfo.cacheFill"] else []) ++
     (if multi && ops.any (fun o => validates o.kind && o.defaultsOn) then ["defaults.on"] else []) ++
     (if getBool j "cold" then ["cold.firstUse"] else []) ++
-    (if ExclSharedDefault cm then ["excl.sharedDefault"] else []) ++
-    (if ExclTypeInfo cm then ["excl.typeInfoIdentity"] else [])
+    -- the input classes of the two repaired defects (F-C15-1, F-C15-2): kept visible as coverage
+    (if ops.any (fun o => validates o.kind && o.defaultsOn && o.sharedDefault) then ["defaults.objectDefault"] else []) ++
+    (if ops.any (fun o => o.kind = .gen && o.recursive) then ["typeinfo.recursiveType"] else [])
   jobj [
     ("model", jobj [("race", Json.bool out.race), ("diverge", Json.bool out.diverge), ("docChanged", Json.bool out.docChanged)]),
     ("spec", jobj [("race", Json.bool specOutcome.race), ("diverge", Json.bool specOutcome.diverge),
                    ("docChanged", Json.bool specOutcome.docChanged)]),
-    ("may", let m := mayOutcome cm
-            jobj [("race", Json.bool m.race), ("diverge", Json.bool m.diverge), ("docChanged", Json.bool m.docChanged)]),
-    ("excl", jstrs ((if ExclSharedDefault cm then ["SharedObjectDefault"] else []) ++
-                    (if ExclTypeInfo cm then ["TypeInfoIdentity"] else []))),
+    ("excl", Json.arr #[]),
     ("branches", jstrs branches),
     ("trace_len", Json.num (caseTrace cm).length)]
 
